@@ -27,7 +27,8 @@
     * conservation is partial correctness: `run … = some r` means every call returned.  The loop
       `for len(Top) >= capacity { resample }` has no worst-case bound (`resampleLoop_zero_draws_stuck`); it can always
       terminate (`resampleLoop_can_terminate`, `mapTop_can_return`) and does so with probability 1.
-    * arithmetic is exact (`Int`); float64 rounding outside the exact domain is not decided (DESIGN §4.1).
+    * arithmetic is exact: counts and values are dyadic rationals held as `Int`s in units of 1/16 (sums in 1/256), see
+      the header of SH.Model.StringTop; float64 rounding outside that exact domain is not decided (DESIGN §4.1).
 -/
 import SH.Model.StringTop
 namespace SH.C07
@@ -193,11 +194,11 @@ def listMin (vs : List Int) : Option Int := vs.foldl (fun m v => omin m (some v)
 def listMax (vs : List Int) : Option Int := vs.foldl (fun m v => omax m (some v)) none
 
 /-- the totals of one event (a non-positive count counts as 0 — ItemCounter ignores it; a value array with
-    count `c` stands for its mean taken `c` times) -/
+    count `c` stands for its mean taken `c` times: Σv·c/len, here with counts and values scaled by `unit`) -/
 def evTot : Event → Tot
   | .counter c => ⟨pos c, 0, none, none⟩
   | .value v c => ⟨pos c, v * c, some v, some v⟩
-  | .values vs c => if vs.isEmpty then Tot.zero else ⟨pos c, vs.sum * c / vs.length, listMin vs, listMax vs⟩
+  | .values vs c => if vs.isEmpty then Tot.zero else ⟨pos c, vs.sum * unit * c / (unit * vs.length), listMin vs, listMax vs⟩
   | .merge a => a.totP
 
 /-- reading aid: on positive counts the event totals are the plain ones -/
@@ -210,19 +211,19 @@ theorem evTot_value_pos (v c : Int) (h : 0 < c) : evTot (.value v c) = ⟨c, v *
   simp [evTot, this]
 
 theorem valuesTmp_aux (vs : List Int) (t : Agg) :
-    (vs.foldl (fun t v => t.addOnlyValue v 1) t).cnt = t.cnt ∧
-    (vs.foldl (fun t v => t.addOnlyValue v 1) t).sum = t.sum + vs.sum ∧
-    (vs.foldl (fun t v => t.addOnlyValue v 1) t).mnO = vs.foldl (fun m v => omin m (some v)) t.mnO ∧
-    (vs.foldl (fun t v => t.addOnlyValue v 1) t).mxO = vs.foldl (fun m v => omax m (some v)) t.mxO ∧
-    (vs ≠ [] → (vs.foldl (fun t v => t.addOnlyValue v 1) t).set = true) := by
+    (vs.foldl (fun t v => t.addOnlyValue v unit) t).cnt = t.cnt ∧
+    (vs.foldl (fun t v => t.addOnlyValue v unit) t).sum = t.sum + vs.sum * unit ∧
+    (vs.foldl (fun t v => t.addOnlyValue v unit) t).mnO = vs.foldl (fun m v => omin m (some v)) t.mnO ∧
+    (vs.foldl (fun t v => t.addOnlyValue v unit) t).mxO = vs.foldl (fun m v => omax m (some v)) t.mxO ∧
+    (vs ≠ [] → (vs.foldl (fun t v => t.addOnlyValue v unit) t).set = true) := by
   induction vs generalizing t with
   | nil => simp
   | cons v vs ih =>
-    obtain ⟨h1, h2, h3, h4, h5⟩ := ih (t.addOnlyValue v 1)
+    obtain ⟨h1, h2, h3, h4, h5⟩ := ih (t.addOnlyValue v unit)
     simp only [List.foldl_cons, List.sum_cons]
     refine ⟨?_, ?_, ?_, ?_, ?_⟩
     · rw [h1]; simp [Agg.addOnlyValue]
-    · rw [h2]; simp [Agg.addOnlyValue]; omega
+    · rw [h2]; simp only [Agg.addOnlyValue, unit]; omega
     · rw [h3, addOnlyValue_mnO]
     · rw [h4, addOnlyValue_mxO]
     · intro _
@@ -231,17 +232,17 @@ theorem valuesTmp_aux (vs : List Int) (t : Agg) :
       | cons w ws => exact h5 (by simp)
 
 theorem scaled_sum (s c : Int) (n : Nat) (hn : 0 < n) :
-    (if c ≠ (n : Int) then scaleSum s c n else s) = s * c / (n : Int) := by
-  by_cases h : c = (n : Int)
+    (if c ≠ unit * (n : Int) then scaleSum s c (unit * n) else s) = s * c / (unit * (n : Int)) := by
+  by_cases h : c = unit * (n : Int)
   · subst h
-    simp
-    rw [Int.mul_ediv_cancel]; omega
+    simp only [ne_eq, not_true_eq_false, if_false]
+    rw [Int.mul_ediv_cancel]; simp only [unit]; omega
   · simp only [ne_eq, h, not_false_eq_true, if_true, scaleSum]
     split
     · rfl
     · rename_i h1
-      have : (n : Int) = 1 := by simpa using h1
-      rw [this]; simp
+      have : unit * (n : Int) = unit := by simpa using h1
+      rw [this]
 
 theorem scaled_fields (t : Agg) (c total : Int) :
     (scaled t c total).cnt = t.cnt ∧ (scaled t c total).set = t.set ∧ (scaled t c total).vmin = t.vmin ∧
@@ -250,12 +251,12 @@ theorem scaled_fields (t : Agg) (c total : Int) :
   unfold scaled; split <;> simp [*]
 
 theorem valuesTmp_totP (vs : List Int) (c : Int) (hne : vs ≠ []) :
-    (scaled (valuesTmp vs c) c vs.length).totP = ⟨pos c, vs.sum * c / vs.length, listMin vs, listMax vs⟩ := by
+    (scaled (valuesTmp vs c) c (unit * vs.length)).totP = ⟨pos c, vs.sum * unit * c / (unit * vs.length), listMin vs, listMax vs⟩ := by
   have hlen : 0 < vs.length := List.length_pos_iff.mpr hne
   obtain ⟨h1, h2, h3, h4, h5⟩ := valuesTmp_aux vs { cnt := c }
   have t1 : (valuesTmp vs c).cnt = c := h1
-  have t2 : (valuesTmp vs c).sum = vs.sum := by
-    have : (valuesTmp vs c).sum = 0 + vs.sum := h2
+  have t2 : (valuesTmp vs c).sum = vs.sum * unit := by
+    have : (valuesTmp vs c).sum = 0 + vs.sum * unit := h2
     omega
   have t5 : (valuesTmp vs c).set = true := h5 hne
   have t3 : some (valuesTmp vs c).vmin = listMin vs := by
@@ -264,9 +265,9 @@ theorem valuesTmp_totP (vs : List Int) (c : Int) (hne : vs ≠ []) :
   have t4 : some (valuesTmp vs c).vmax = listMax vs := by
     have : (valuesTmp vs c).mxO = listMax vs := h4
     simpa [Agg.mxO, t5] using this
-  obtain ⟨s1, s2, s3, s4, s5⟩ := scaled_fields (valuesTmp vs c) c vs.length
+  obtain ⟨s1, s2, s3, s4, s5⟩ := scaled_fields (valuesTmp vs c) c (unit * vs.length)
   simp only [Agg.totP, Agg.mnO, Agg.mxO, s1, s2, s3, s4, s5, t1, t2, t5, if_true, t3, t4,
-    scaled_sum vs.sum c vs.length hlen]
+    scaled_sum (vs.sum * unit) c vs.length hlen]
 
 theorem applyValues_tot {a : Agg} (vs : List Int) (c : Int) (h : AggWF a) :
     (a.applyValues vs c).tot = a.tot + evTot (.values vs c) := by
@@ -772,7 +773,7 @@ theorem resample_max_draws_empties (r : Row) (h : ∀ kv ∈ r.top, kv.2.cnt < (
   have h1 := h kv hk
   have hp := roundSf_pos r
   have hm : (roundSf r - 1) % roundSf r = roundSf r - 1 := Nat.mod_eq_of_lt (by omega)
-  simp only [evictsKV, evicts, hm, Bool.not_eq_true, Bool.not_eq_false', Bool.and_eq_true, decide_eq_true_eq]
+  simp only [evictsKV, evicts, hm, Bool.not_eq_true, Bool.not_eq_false', Bool.and_eq_true, decide_eq_true_eq, unit]
   constructor <;> omega
 
 theorem bound_exists (l : List Entry) : ∃ n : Nat, ∀ kv ∈ l, kv.2.cnt < ((2 ^ n : Nat) : Int) := by
@@ -860,28 +861,28 @@ def k3 : Key := ⟨[98], 0⟩
 /-- draws of one round: k1 receives 3, everybody else 0 -/
 def d : Key → Nat := fun k => if k = k1 then 3 else 0
 
-/-- capacity 2.  k1 += 3; k2 gets value 10 twice; k3 arrives at a full top: round 1 (sf 2) evicts nothing, round 2 (sf 4)
-    evicts k1 (3 ≤ rv 3) and keeps k2 (2 > rv 0); k1 comes again and is redirected to the tail (0.5·4 ≥ 1);
-    finish(1) keeps k2 (count 2) and folds k3 (count 1). -/
+/-- capacity 2, numbers in 1/16 units (sums in 1/256).  k1 += 2.5; k2 gets value 10 with count 2; k3 (count 1.25) arrives
+    at a full top: round 1 (sf 2) evicts nothing, round 2 (sf 4) evicts k1 (2.5 ≤ rv 3) and keeps k2 (2 > rv 0); k1 comes
+    again with count 1 and is redirected to the tail (0.5·4 ≥ 1); finish(1) keeps k2 (count 2) and folds k3 (count 1.25). -/
 def hist : List Op :=
-  [ .write ⟨2, k1, 3, 0, [], .counter 3⟩,
-    .write ⟨2, k2, 2, 0, [], .value 10 2⟩,
-    .write ⟨2, k3, 1, 0, [d, d], .counter 1⟩,
-    .write ⟨2, k1, 1, 2 ^ 52, [], .counter 1⟩,
+  [ .write ⟨2, k1, 40, 0, [], .counter 40⟩,
+    .write ⟨2, k2, 32, 0, [], .value 160 32⟩,
+    .write ⟨2, k3, 20, 0, [d, d], .counter 20⟩,
+    .write ⟨2, k1, 16, 2 ^ 52, [], .counter 16⟩,
     .finish 1 ]
 
-example : run Row.empty hist = some ⟨[(k2n, ⟨2, 20, 10, 10, true⟩)], ⟨5, 0, 0, 0, false⟩, 2⟩ := by decide
-example : evTotal hist = ⟨7, 20, some 10, some 10⟩ := by decide
+example : run Row.empty hist = some ⟨[(k2n, ⟨32, 5120, 160, 160, true⟩)], ⟨76, 0, 0, 0, false⟩, 2⟩ := by decide
+example : evTotal hist = ⟨108, 5120, some 160, some 160⟩ := by decide
 /-- not enough fuel: the loop is still running -/
-example : run Row.empty (hist.take 2 ++ [.write ⟨2, k3, 1, 0, [d], .counter 1⟩]) = none := by decide
+example : run Row.empty (hist.take 2 ++ [.write ⟨2, k3, 20, 0, [d], .counter 20⟩]) = none := by decide
 
-/-- a row with a tie at the finish boundary: the enumeration decides which of the two count-2 values survives,
-    `finish_heaviest` holds for both -/
-def tie : Row := ⟨[(k1, ⟨2, 0, 0, 0, false⟩), (k3, ⟨2, 0, 0, 0, false⟩), (k2n, ⟨1, 7, 7, 7, true⟩)], ⟨4, 0, 0, 0, false⟩, 3⟩
+/-- a row with a tie (two values of count 1.5) at the finish boundary: the enumeration decides which of the two
+    survives, `finish_heaviest` holds for both -/
+def tie : Row := ⟨[(k1, ⟨24, 0, 0, 0, false⟩), (k3, ⟨24, 0, 0, 0, false⟩), (k2n, ⟨16, 1792, 112, 112, true⟩)], ⟨64, 0, 0, 0, false⟩, 3⟩
 example : RowWF tie := ⟨by unfold AggWF; decide, by unfold AllWF AggWF; decide, by decide⟩
-example : (finish 1 tie).top = [(k1, ⟨2, 0, 0, 0, false⟩)] ∧ folded 1 tie ≠ [] := by decide
-example : (finish 1 (reorder [tie.top[1], tie.top[0], tie.top[2]] tie)).top = [(k3, ⟨2, 0, 0, 0, false⟩)] := by decide
-example : (finish 1 tie).tot = tie.tot ∧ whale tie = 9 := by decide
+example : (finish 1 tie).top = [(k1, ⟨24, 0, 0, 0, false⟩)] ∧ folded 1 tie ≠ [] := by decide
+example : (finish 1 (reorder [tie.top[1], tie.top[0], tie.top[2]] tie)).top = [(k3, ⟨24, 0, 0, 0, false⟩)] := by decide
+example : (finish 1 tie).tot = tie.tot ∧ whale tie = 128 := by decide
 /-- hypotheses of the termination lemmas are satisfiable -/
 example : 3 ≤ tie.top.length ∧ ∀ kv ∈ tie.top, 1 ≤ kv.2.cnt := by decide
 
@@ -897,6 +898,18 @@ def finishWrong (cap : Int) (r : Row) : Row :=
   { r with top := (sortDesc r.top).drop (r.top.length - finCap cap),
            tail := foldInto r.tail ((sortDesc r.top).take (r.top.length - finCap cap)) }
 example : ∃ a ∈ (finishWrong 1 tie).top, ∃ b ∈ (sortDesc tie.top).take 2, a.2.cnt < b.2.cnt := by decide
+
+/-- FinishStringTop whose comparator is `int(b.count - a.count)` (truncation toward zero: counts less than 1 apart
+    compare equal — seeded change C07-1).  With counts 1.4375 and 1.0 enumerated in this order it keeps the lighter one. -/
+def insTrunc (x : Entry) : List Entry → List Entry
+  | [] => [x]
+  | y :: ys => if 0 < (x.2.cnt - y.2.cnt).tdiv unit then x :: y :: ys else y :: insTrunc x ys
+def sortTrunc : List Entry → List Entry
+  | [] => []
+  | x :: xs => insTrunc x (sortTrunc xs)
+def frac : List Entry := [(k3, ⟨23, 0, 0, 0, false⟩), (k1, ⟨16, 0, 0, 0, false⟩)]
+example : ∃ a ∈ (sortTrunc frac).take 1, ∃ b ∈ (sortTrunc frac).drop 1, a.2.cnt < b.2.cnt := by decide
+example : (finish 1 ⟨frac, {}, 0⟩).top = [(k3, ⟨23, 0, 0, 0, false⟩)] := by decide
 end Ex
 
 end SH.C07
